@@ -237,6 +237,9 @@ func findPrefix(node *RegexNode) string {
 	return vsb.String()
 }
 
+// maxLoopPrefixLength stops loop bodies from being repeated into the prefix once it is this long.
+const maxLoopPrefixLength = 256
+
 // Processes the node, adding any prefix text to the builder.
 // Returns whether processing should continue with subsequent nodes.
 func tryFindPrefix(node *RegexNode, vsb *bytes.Buffer) bool {
@@ -331,7 +334,11 @@ func tryFindPrefix(node *RegexNode, vsb *bytes.Buffer) bool {
 			limit = node.M
 		}
 		for i := 0; i < limit; i++ {
-			if tryFindPrefix(node.Children[0], vsb) {
+			// nested counted loops multiply; what was collected so far is still a valid prefix
+			if vsb.Len() >= maxLoopPrefixLength {
+				return false
+			}
+			if !tryFindPrefix(node.Children[0], vsb) {
 				return false
 			}
 		}
